@@ -81,7 +81,24 @@ func nontrivialOp(p part, path []Op) (string, bool) {
 	return o.K, true
 }
 
-func searchPart(r *vlib.Report, p part, deadline time.Time) {
+// found collects the violations of one part (first = shortest per class); the parts run
+// concurrently, so they are handed to the report afterwards in a fixed part order.
+type found struct {
+	class, desc string
+	c           Case
+}
+type foundList struct{ l []found }
+
+func (v *foundList) add(class, desc string, c Case) {
+	for _, f := range v.l {
+		if f.class == class {
+			return
+		}
+	}
+	v.l = append(v.l, found{class, desc, c})
+}
+
+func searchPart(r *vlib.Report, p part, deadline time.Time, vs *foundList) {
 	label := p.name
 	if p.name == "container" && !p.observe {
 		label += "-unobserved"
@@ -95,7 +112,7 @@ func searchPart(r *vlib.Report, p part, deadline time.Time) {
 		run:      func(path []Op) (string, *failure) { return p.run(path, nil) },
 		onViolation: func(path []Op, f *failure) {
 			c := Case{Part: p.name, Observe: p.observe, Ops: append([]Op(nil), path...)}
-			r.Violation(f.class, describe(c, f.msg), c)
+			vs.add(f.class, describe(c, f.msg), c)
 			r.Count("failing-transitions:"+label+":"+f.class, 1)
 		},
 		onState: func(path []Op, key string) {
@@ -180,10 +197,16 @@ func main() {
 	}
 
 	var wg sync.WaitGroup
+	order := []string{"container", "container-u", "registry", "kube", "misc", "glue"}
+	lists := map[string]*foundList{}
+	for _, n := range order {
+		lists[n] = &foundList{}
+	}
 	for _, name := range []string{"registry", "container", "container-u", "kube"} {
 		p := parts[name]
+		vs := lists[name]
 		wg.Add(1)
-		go func() { defer wg.Done(); searchPart(r, p, deadline) }()
+		go func() { defer wg.Done(); searchPart(r, p, deadline, vs) }()
 	}
 	// glue, subset and build share the process-global registry / math/rand: one goroutine
 	wg.Add(1)
@@ -195,7 +218,7 @@ func main() {
 				nsub++
 				if f := runSubset(n); f != nil {
 					c := Case{Part: "subset", N: n}
-					r.Violation(f.class, describe(c, f.msg), c)
+					lists["misc"].add(f.class, describe(c, f.msg), c)
 				}
 			}
 			r.Nontrivial(fmt.Sprintf("subset|%d", n))
@@ -204,7 +227,7 @@ func main() {
 			nbuild++
 			if f := runBuild(n, nil); f != nil {
 				c := Case{Part: "build", N: n}
-				r.Violation(f.class, describe(c, f.msg), c)
+				lists["misc"].add(f.class, describe(c, f.msg), c)
 			}
 			r.Nontrivial(fmt.Sprintf("build|%d", n))
 		}
@@ -212,9 +235,14 @@ func main() {
 		r.AddTraces(nsub + nbuild)
 		r.Scenario("subset", map[string]any{"sizes": "0..70", "calls": nsub})
 		r.Scenario("build", map[string]any{"seeded_values": []int{0, 1, 2, 3, 29, 30, 31, 32, 33, 34, 40, 64}, "steps_each": 5})
-		searchPart(r, parts["glue"], deadline)
+		searchPart(r, parts["glue"], deadline, lists["glue"])
 	}()
 	wg.Wait()
+	for _, n := range order {
+		for _, f := range lists[n].l {
+			r.Violation(f.class, f.desc, f.c)
+		}
+	}
 
 	r.Assume("etcd delivers every change of a key as one event (PUT for create/update, DELETE without value); a DELETE only for an existing key")
 	r.Assume("a reload snapshot is the whole prefix in key order; the order in which handleChanges/Monitor deliver the members of one add-run/remove-run is arbitrary (map iteration) and enumerated")
